@@ -278,15 +278,17 @@ func (mltp MaskedLinearTransformationProtocol) Transform(ct *rlwe.Ciphertext, tr
 		ciphertextOut.Resize(ciphertextOut.Degree(), maxLevel)
 	}
 
-	// Updates the ciphertext metadata if the output dimensions is smaller
-	if logSlots := mltp.s2e.params.LogMaxSlots(); logSlots < ct.LogSlots() {
-		ct.LogDimensions.Cols = logSlots
+	// Updates the output metadata if the output dimensions is smaller
+	// (on a copy: the input ciphertext must be left untouched).
+	metadata := *ct.MetaData
+	if logSlots := mltp.s2e.params.LogMaxSlots(); logSlots < metadata.LogSlots() {
+		metadata.LogDimensions.Cols = logSlots
 	}
 
 	// Sets LT(-sum(M_i) + x) * diffscale in the RNS domain
 	// Positional -> RNS -> NTT
 	ringQ.SetCoefficientsBigint(mask, ciphertextOut.Value[0])
-	rlwe.NTTSparseAndMontgomery(ringQ, ct.MetaData, ciphertextOut.Value[0])
+	rlwe.NTTSparseAndMontgomery(ringQ, &metadata, ciphertextOut.Value[0])
 
 	// LT(-sum(M_i) + x) * diffscale + [-a*s + LT(M_i) * diffscale + e] = [-a*s + LT(x) * diffscale + e]
 	ringQ.Add(ciphertextOut.Value[0], share.ShareToEncShare.Value, ciphertextOut.Value[0])
@@ -296,7 +298,7 @@ func (mltp MaskedLinearTransformationProtocol) Transform(ct *rlwe.Ciphertext, tr
 		return
 	}
 
-	*ciphertextOut.MetaData = *ct.MetaData
+	*ciphertextOut.MetaData = metadata
 
 	if transform != nil {
 		ciphertextOut.IsBatched = transform.Encode
